@@ -163,6 +163,7 @@ def native_run(target, inputs, choices):
     ctx = Ctx('concrete', model=inputs, choices=choices, native=True)
     ctx.class_constants = []
     set_current_ctx(ctx)
+    module_state = _mutable_class_state(target) if isinstance(target, Target) else {}
     try:
         st = target.setup(ctx)
         externs = target.externs(ctx, st)
@@ -226,6 +227,11 @@ def native_run(target, inputs, choices):
             clauses = list(target.ensures(ctx, st, out))     # evaluated under the same patched externs
             clauses += list(target.frame(ctx, st, out))
         clauses += _class_constant_frame(ctx)
+        changed = _module_state_changed(module_state)
+        if module_state:
+            clauses.append((MODULE_STATE_LABEL, not changed))
+            if changed:
+                ctx.note("class-level state modified: %s" % changed)
         return ctx, st, out, clauses
     finally:
         set_current_ctx(None)
@@ -349,6 +355,7 @@ def explore_chunk(target, work, limit, carve_names, tier, cross_check=True):
 
     work = list(work)
     n = 0
+    module_state = _mutable_class_state(target) if isinstance(target, Target) else {}
     try:
         while work:
             if limit is not None and n >= limit:
@@ -369,6 +376,7 @@ def explore_chunk(target, work, limit, carve_names, tier, cross_check=True):
                 # a violation replayed on the real code (never a proof of anything when it is true).
                 set_current_ctx(None)
                 rep.outside.append("%s" % err)
+                _module_state_changed(module_state)          # (restore; the sample replay below has its own check)
                 _probe_sample(target, rep, ctx)
                 outside_paths = getattr(rep, '_outside_paths', 0) + 1
                 rep._outside_paths = outside_paths
@@ -379,6 +387,13 @@ def explore_chunk(target, work, limit, carve_names, tier, cross_check=True):
             finally:
                 set_current_ctx(None)
             work.extend(ctx.pending)
+            changed = _module_state_changed(module_state)
+            if changed and res.outcome != 'infeasible':
+                # the interpreted code reached a class-level container of the REAL class (by the class's name) and modified it
+                ob = ObRecord(target.oid('ensures', MODULE_STATE_LABEL), 'ensures', MODULE_STATE_LABEL, path_id(ctx.decisions), ctx.choices)
+                ob.status, ob.backend, ob.model = 'refuted', 'frame (class-level state compared before / after the path)', {}
+                ob.solver_out = 'modified: %s' % changed
+                rep.obligations.append(ob)
             _account_path(target, rep, res, carve, tier, cross_check)
     except OutsideSubset as err:
         rep.outside.append("%s" % err)
@@ -389,6 +404,77 @@ def explore_chunk(target, work, limit, carve_names, tier, cross_check=True):
     except Exception as err:
         rep.errors.append(('crash', "%s: %s\n%s" % (type(err).__name__, err, traceback.format_exc()[-2000:])))
     return rep, work
+
+
+MODULE_STATE_LABEL = 'class-level-state-of-the-module-is-left-unchanged'
+
+
+def _mutable_class_state(target):
+    """{(class, attribute): snapshot} for every mutable container bound at class level in the module of the code under
+    contract (tables, lists, caches -- including ones a change has just added).  Together with the obligation below: a
+    function under contract leaves them as they are, however it reaches them (through `cls`, or by the class's name)."""
+    import collections.abc as _abc
+    import copy as _copy
+    try:
+        mod, _g = target.module()
+    except Exception:
+        return {}
+    out = {}
+    for cls in list(vars(mod).values()):
+        if not isinstance(cls, type) or getattr(cls, '__module__', None) != mod.__name__:
+            continue
+        for attr, v in list(vars(cls).items()):
+            if attr.startswith('__'):
+                continue
+            if isinstance(v, (list, dict, set)):
+                try:
+                    out[(cls, attr)] = _copy.deepcopy(v)
+                except Exception:
+                    pass
+            elif isinstance(v, _abc.MutableMapping):
+                try:
+                    out[(cls, attr)] = list(v.items())
+                except Exception:
+                    pass
+    return out
+
+
+def _module_state_changed(snapshot, restore=True):
+    """names of the class-level containers that differ from the snapshot (restored afterwards: the process goes on)"""
+    import collections.abc as _abc
+    import copy as _copy
+    changed = []
+    for (cls, attr), snap in snapshot.items():
+        cur = cls.__dict__.get(attr)
+        try:
+            if isinstance(cur, (list, dict, set)):
+                same = (type(cur) is type(snap) and cur == snap)
+            elif isinstance(cur, _abc.MutableMapping):
+                same = (list(cur.items()) == snap)
+            else:
+                same = (cur is None and snap is None)
+        except Exception:
+            same = True
+        if not same:
+            changed.append('%s.%s' % (cls.__name__, attr))
+            if restore:
+                try:
+                    if isinstance(cur, list):
+                        cur[:] = _copy.deepcopy(snap)
+                    elif isinstance(cur, dict):
+                        cur.clear(); cur.update(_copy.deepcopy(snap))
+                    elif isinstance(cur, set):
+                        cur.clear(); cur.update(_copy.deepcopy(snap))
+                    elif isinstance(cur, _abc.MutableMapping):
+                        for k in list(cur.keys()):
+                            del cur[k]
+                        for k, v in snap:
+                            cur[k] = v
+                    else:
+                        setattr(cls, attr, _copy.deepcopy(snap))
+                except Exception:
+                    pass
+    return changed
 
 
 def _class_constant_frame(ctx):
